@@ -622,14 +622,26 @@ def prove_obligation(ob, facts, timeout_ms):
         if v["status"] != "proved":
             return dict(status="undecided", backend=v["backend"], seconds=v["seconds"], model=None, detail="hint %s not established" % hl)
         hint_fs.append(hf)
+    goal = ob.goal if not isinstance(ob.goal, bool) else z3.BoolVal(ob.goal)
+    variants = []
     if ob.abstract:
-        g, fs = _abstracted(ob.goal if not isinstance(ob.goal, bool) else z3.BoolVal(ob.goal), facts + hint_fs, ob.abstract)
-        v = smt.prove(g, fs, timeout_ms)
-        if v["status"] == "proved":
-            v["backend"] += "+ghost-abstraction"
-            return v
-    v = smt.prove(ob.goal if not isinstance(ob.goal, bool) else z3.BoolVal(ob.goal), facts + hint_fs, timeout_ms)
-    return v
+        g, fs = _abstracted(goal, facts + hint_fs, ob.abstract)
+        variants.append(("+ghost-abstraction", g, fs))
+    variants.append(("", goal, facts + hint_fs))
+    # stage 1: every variant with a short budget; stage 2: the full portfolio
+    quick = min(2500, timeout_ms)
+    last = None
+    for stage_timeout, portfolio in ((quick, False), (timeout_ms, True)):
+        for suffix, g, fs in variants:
+            v = smt.prove(g, fs, stage_timeout, portfolio=portfolio)
+            if v["status"] == "proved":
+                v["backend"] += suffix
+                return v
+            if v["status"] == "refuted" and not suffix:
+                return v  # a model of the un-generalised query is a real counter-model
+            if not suffix:
+                last = v
+    return last
 
 
 class GroupResult(object):
@@ -670,7 +682,7 @@ def run_group(name, harness, stubs=(), patches=True, feas_timeout_ms=3000, prove
         if setup:
             setup(rb)
         work = [[]]
-        first_sat_checked = False
+        probes_done = set()
         while work:
             prefix = work.pop()
             if res.paths + res.infeasible >= max_paths:
@@ -696,6 +708,16 @@ def run_group(name, harness, stubs=(), patches=True, feas_timeout_ms=3000, prove
                 if tag.startswith("admission:"):
                     res.admissions.add(tag[len("admission:"):])
             for ob in eng.obligations:
+                if ob.kind == "must-fail":
+                    # vacuity probe: one refutation per label is enough; cheap budget, no generalisation
+                    if ob.label in probes_done:
+                        continue
+                    g0 = ob.goal if not isinstance(ob.goal, bool) else z3.BoolVal(ob.goal)
+                    v = smt.prove(g0, list(eng.facts[: ob.nfacts]), 2000, portfolio=False)
+                    if v["status"] == "refuted":
+                        probes_done.add(ob.label)
+                    res.obligations.append(dict(label=ob.label, kind=ob.kind, path=pathdesc, status=v["status"], backend=v["backend"], seconds=round(v["seconds"], 4), detail=""))
+                    continue
                 if not ob.abstract and eng.path_ghosts:
                     ob.abstract = list(eng.path_ghosts)
                 v = prove_obligation(ob, eng.facts, eng.prove_timeout_ms)
